@@ -202,7 +202,13 @@ class MHLHistory:
     def renamed_path_with_previous_path(self):
         all_paths = {}
         for hash_list in self.hash_lists:
-            all_paths.update(hash_list.renamed_path_with_previous_path(self.get_root_path()))
+            renamed_paths = hash_list.renamed_path_with_previous_path(self.get_root_path())
+            # a file can be renamed again in a later generation, so all its former paths have to
+            # lead to the latest path, not only to the path of the generation following them
+            for path, renamed_path in all_paths.items():
+                if renamed_path in renamed_paths:
+                    all_paths[path] = renamed_paths[renamed_path]
+            all_paths.update(renamed_paths)
         for child_history in self.child_histories:
             all_paths.update(child_history.renamed_path_with_previous_path())
         return all_paths
